@@ -20,13 +20,59 @@ pub fn no_subs() -> Vec<Box<dyn DynSub>> {
     Vec::new()
 }
 
+pub mod c01;
+pub mod c02;
+pub mod c03;
+pub mod c04;
+pub mod c05;
+pub mod c06;
+pub mod c07;
+pub mod c08;
+pub mod c09;
+pub mod c10;
+pub mod c11;
+pub mod c12;
+pub mod c13;
+pub mod c14;
+pub mod c15;
+pub mod c16;
 pub mod c17;
 pub mod c18;
+pub mod c19;
+pub mod c20;
 
 pub fn all() -> Vec<Prop> {
-    vec![c17::prop(), c18::prop()]
+    vec![
+        c01::prop(),
+        c02::prop(),
+        c03::prop(),
+        c04::prop(),
+        c05::prop(),
+        c06::prop(),
+        c07::prop(),
+        c08::prop(),
+        c09::prop(),
+        c10::prop(),
+        c11::prop(),
+        c12::prop(),
+        c13::prop(),
+        c14::prop(),
+        c15::prop(),
+        c16::prop(),
+        c17::prop(),
+        c18::prop(),
+        c19::prop(),
+        c20::prop(),
+    ]
 }
 
-pub fn helper_main(_args: &[String]) -> i32 {
-    2
+/// `verif helper <name> <args..>`: single-purpose helper processes (fault injection,
+/// crash points, ...).  Each property module that needs one adds an arm here.
+pub fn helper_main(args: &[String]) -> i32 {
+    match args.first().map(|s| s.as_str()) {
+        _ => {
+            eprintln!("unknown helper {:?}", args);
+            2
+        }
+    }
 }
